@@ -34,20 +34,34 @@ type stlEvent struct {
 	Tc2    bool       `json:"tc2"`  // write: read + write again left every timecode unchanged
 	Res    string     `json:"res"`
 	Msg    string     `json:"msg"`
+	// what the hook after parseTTIBlock reported, one entry per TTI block: cues so far, extension block number
+	Hooks []stlHook `json:"hooks"`
+}
+
+type stlHook struct {
+	Items int `json:"items"`
+	Ebn   int `json:"ebn"`
 }
 
 func stlRead(n int, c stlCase, ignore bool) stlEvent {
 	c.G.Norm()
 	c.D.Norm()
-	ev := stlEvent{N: n, Dir: "read", Ignore: ignore, G: c.G, D: c.D}
+	ev := stlEvent{N: n, Dir: "read", Ignore: ignore, G: c.G, D: c.D, Hooks: []stlHook{}}
 	ev.Post.Norm()
 	raw := stlx.Pack(c.D)
 	dumpDoc("stl", n, raw)
 	var s *astisub.Subtitles
 	var err error
+	rd := bytes.NewReader(raw)
+	astisub.VerifHook = func(site string, key interface{}, kv ...interface{}) {
+		if site == "stl.tti" && key == interface{}(rd) && len(kv) == 2 {
+			ev.Hooks = append(ev.Hooks, stlHook{kv[0].(int), toInt(kv[1])})
+		}
+	}
 	ev.Res, ev.Msg = run.Guard(10*time.Second, func() {
-		s, err = astisub.ReadFromSTL(bytes.NewReader(raw), astisub.STLOptions{IgnoreTimecodeStartOfProgramme: ignore})
+		s, err = astisub.ReadFromSTL(rd, astisub.STLOptions{IgnoreTimecodeStartOfProgramme: ignore})
 	})
+	astisub.VerifHook = nil
 	if ev.Res == "ok" && err != nil {
 		ev.Res, ev.Msg = "err", err.Error()
 	}
@@ -55,6 +69,22 @@ func stlRead(n int, c stlCase, ignore bool) stlEvent {
 		ev.Post = stlx.Project(s)
 	}
 	return ev
+}
+
+func toInt(v interface{}) int {
+	switch x := v.(type) {
+	case int:
+		return x
+	case uint8:
+		return int(x)
+	case uint16:
+		return int(x)
+	case uint32:
+		return int(x)
+	case uint:
+		return int(x)
+	}
+	return -1
 }
 
 func timecodes(d stlx.Doc) (out [][4]int) {
@@ -66,7 +96,7 @@ func timecodes(d stlx.Doc) (out [][4]int) {
 
 func stlWrite(n int, g stlx.Truth, mode string) stlEvent {
 	g.Norm()
-	ev := stlEvent{N: n, Dir: "write", Mode: mode, G: g}
+	ev := stlEvent{N: n, Dir: "write", Mode: mode, G: g, Hooks: []stlHook{}}
 	ev.D.Norm()
 	ev.Post.Norm()
 	s := stlx.Build(g, mode)
